@@ -16,6 +16,9 @@ import Proofs.Regex
 import Proofs.LexerRegex
 import Proofs.LexerRegexString
 import Proofs.RegexOrder
+import Martian.LexerId
+import Proofs.LexerRegexId
+import Proofs.TokenizerSpace
 import Martian.Tokenizer
 import Proofs.Tokenizer
 import Gen.Facts
@@ -244,6 +247,18 @@ theorem string_regex_tok_unquote_total (s t : Bytes)
 example : (parse Gen.tokStringRegex).map (fun r => pmatch r [0x22, 0x61, 0x5C, 0x6E, 0xC3, 0xA9, 0x22, 0x20])
     = some (some [0x22, 0x61, 0x5C, 0x6E, 0xC3, 0xA9, 0x22]) := by decide
 
+theorem id_rule_parses : parse Gen.tokIdRegex = some idRe := by decide
+
+/-- The identifier rule: for every input the hand-written recogniser `matchId`
+(optional `_`, a letter, the maximal run of word characters) returns exactly
+the leftmost-first match of the parsed, regenerated regex of `tokIdRule`. -/
+theorem id_rule_is_regex (s : Bytes) :
+    (parse Gen.tokIdRegex).map (fun r => pmatch r s) = some (matchId s) := by
+  rw [id_rule_parses]; exact congrArg some (pmatch_idRe s)
+
+example : matchId [0x5F, 0x61, 0x31, 0x5F, 0x2E] = some [0x5F, 0x61, 0x31, 0x5F] ∧ matchId [0x5F, 0x31] = none ∧
+    matchId [0x61, 0xC3, 0xA9] = some [0x61] := by decide
+
 /-! ### leftmost-FIRST: the priority order of matches -/
 
 /-- `ends r [] s` enumerates the matches of prefixes of `s` best-first (first
@@ -328,6 +343,34 @@ INVALID token is reported on line 2 of a one-line file. -/
 theorem line_count_quirks :
     (lexAll [0x22, 0x61, 0x0A, 0x62, 0x22, 0x20, 0x78]).map (fun t => (t.line, t.col)) = [(1, 1), (2, 4)] ∧
     (lexAll [0x23, 0xFF]).map (fun t => (t.id, t.line)) = [(57348, 2)] := by decide
+
+/-- The identifier rule of the tokenizer model (which runs the generic matcher
+on the parsed regenerated regex) is the hand-written recogniser. -/
+theorem tokenizer_id_rule (b : Martian.Lexer.Bytes) :
+    (idRule genTables b).1 = ((Martian.Lexer.matchId b).getD []) := by
+  have h := Props.C08.id_rule_is_regex b
+  simp only [idRule, genTables]
+  cases hp : Martian.Regex.parse Gen.tokIdRegex with
+  | none => rw [hp] at h; cases h
+  | some re =>
+    rw [hp] at h
+    simp only [Option.map_some, Option.some.injEq] at h
+    show (match Martian.Regex.pmatch re b with
+      | some t => (t, lookupId Gen.tokIds "ID")
+      | none => ([], lookupId Gen.tokIds "ID")).fst = _
+    rw [h]
+    cases Martian.Lexer.matchId b <;> rfl
+
+/-- The white-space set of `leadingSpace` is the one of the sources: its ASCII
+fast path is the case list found in tokenizer.go now, and for runes ≥ 0x80 it
+is `unicode.IsSpace`, i.e. membership in the `White_Space` range table found in
+the toolchain's unicode/tables.go now (lo, hi, stride). -/
+theorem leading_space_set (c : UInt8) (r : Nat) (h : 0x80 ≤ r) :
+    isAsciiSpace c = Gen.tokSpaceAscii.contains c.toNat ∧
+    isUniSpace r = inStride Gen.unicodeWhiteSpace r :=
+  ⟨asciiSpace_eq_source c, uniSpace_eq_table r h⟩
+
+example : isUniSpace 0x2003 = true ∧ isUniSpace 0x200B = false ∧ isUniSpace 0xFEFF = false := by decide
 
 end tokenizer
 
